@@ -37,6 +37,8 @@ type Ctl struct {
 	// Point: a verifhook event point; the pause is issued synchronously from inside the pipeline at its At-th hit, so it
 	// can land while a worker of the next stage is about to take (or is processing) the very seed that raised the event
 	Point string `json:"point,omitempty"`
+	// Repause (pause-resume kinds): a second pause is issued immediately after Resume() returned, then resumed
+	Repause bool `json:"repause,omitempty"`
 }
 
 type siteBuilder struct {
